@@ -70,6 +70,17 @@ Theorem C15_errors_handed_back : forall sz script os r,
   filter nonnil (map snd os) = filter nonnil (map snd script).
 Proof. exact errors_handed_back. Qed.
 
+(* a reader that lives on after Finish (a file stream calls Finish at a
+   truncation and keeps reading with the same reader): [run_gens] runs one
+   concrete reader over a list of generations, each a list of reads closed by
+   Finish (= buf[:0], off = 0, capacity kept).  Every generation is framed on
+   its own: nothing of an earlier generation is delivered twice or glued to
+   later data, whatever the reads and the buffer size *)
+Theorem C15_generations_framed_separately : forall sz gens res r,
+  1 <= sz -> run_gens (new_lr sz) gens = (res, r) ->
+  map gen_lines res = map (fun g => frame (concat g)) gens /\ bad r = false.
+Proof. exact generations_framed_separately. Qed.
+
 (* literally "independent": two ways of reading one stream with any two buffer sizes *)
 Theorem C15_same_stream_same_lines : forall s1 s2 sz1 sz2,
   concat s1 = concat s2 -> 1 <= sz1 -> 1 <= sz2 -> deliver sz1 s1 = deliver sz2 s2.
@@ -102,6 +113,12 @@ Example C15_nontrivial_with_error :
   map snd (fst (run_allE 2 script)) = [0; 2; 0; 1]%N.
 Proof. cbv zeta. split; vm_compute; reflexivity. Qed.
 
+(* non-vacuity: a fragment pending at the first Finish, then data starting with newlines *)
+Example C15_nontrivial_generations :
+  map gen_lines (fst (run_gens (new_lr 2) [[[97; 10; 98]; [98]]; [[10; 99; 10]]; []; [[100]]]%N))
+  = [[[97]; [98; 98]]; [[]; [99]]; []; [[100]]]%N.
+Proof. vm_compute. reflexivity. Qed.
+
 Print Assumptions C15_feeds_concat.
 Print Assumptions C15_frame_characterised.
 Print Assumptions C15_every_stream_decomposes.
@@ -111,3 +128,4 @@ Print Assumptions C15_chunking_independent_any_reads.
 Print Assumptions C15_same_stream_same_lines.
 Print Assumptions C15_bytes_with_error_kept.
 Print Assumptions C15_errors_handed_back.
+Print Assumptions C15_generations_framed_separately.
